@@ -385,6 +385,13 @@ def run(ctx: Context):
                 a0 = arg(c, 0, "hashes")
                 keys = dict_literal_keys(a0) if a0 is not None else None
                 if keys and 0 in keys and f.qual not in allowed:
+                    # the proxy may (re-)seed / compare its block tree root with its share hash tree leaf anywhere (C45.10)
+                    if f.cls is fn.cls and len(keys) == 1 and isinstance(c.func, ast.Attribute):
+                        fm = FlowNorm(f)
+                        at = _node_of(f, c)
+                        if fm.norm(at, c.func.value) == "self.block_hash_tree" and \
+                                fm.norm(at, a0.values[0]) == "self.share_hash_tree.get_leaf(self.sharenum)":
+                            continue
                     r.violation(f, f.loc(c), "hash-tree root seeded outside the validated-UEB path: %s" % src(f, c))
 
     # -- 4. per-share verdict -----------------------------------------------
@@ -1094,3 +1101,324 @@ def run(ctx: Context):
         cregs = _regs(car)
         r.require([(x.kind, x.target_name()) for x in cregs][:1] == [("cb", "self._maybe_repair")], car, car.loc(),
                   "check_and_repair chain is %s" % cregs)
+
+    # -- 9. the segment size (and the other encoding inputs) the repairer gets --
+    with ctx.rule("C45.9", "R1/E7", "what the Repairer re-encodes with comes from the capability / the hash-checked UEB, never "
+                  "from a guess: get_segment_size -> DownloadNode.get_segsize fires only with self.segment_size (known) or "
+                  "with the observer list fired with it; self.segment_size is stored only from the validated UEB; "
+                  "get_size / get_storage_index / get_verify_cap are the verify cap's", expected=9) as r:
+        NODE = "immutable.downloader.node:DownloadNode"
+        # what Repairer.start asks for (C45.7 anchors the call itself) is CiphertextFileNode.get_segment_size
+        gss = idx.func(CFN + ".get_segment_size")
+        gssn = FlowNorm(gss)
+        grets = gss.cfg().find(is_return)
+        if not grets:
+            raise AnchorVanished("CiphertextFileNode.get_segment_size has no return")
+        node_attrs = set()
+        for n in grets:
+            r.site(gss, n.ast, "segment size source")
+            s = gssn.norm(n, n.ast.value) if n.ast.value is not None else "None"
+            m = re.match(r"^(self\.\w+)\.get_segsize\(\)$", s)
+            r.require(m is not None, gss, gss.loc(n.ast), "the repairer's segment size is %s, not what the download node learned "
+                      "from the validated UEB (<node>.get_segsize())" % s)
+            if m:
+                node_attrs.add(m.group(1))
+        # the node asked is a DownloadNode of this file's verify cap
+        cfn_cls = idx.cls(CFN)
+        for na in sorted(node_attrs):
+            seen = 0
+            for f in cfn_cls.methods.values():
+                fnm = FlowNorm(f)
+                for n in f.cfg().nodes:
+                    if na not in node_stores(n):
+                        continue
+                    v = assign_value(n, na)
+                    if _falsy_const(v) and v is not None:
+                        continue
+                    seen += 1
+                    s = fnm.norm(n, v) if v is not None else "?"
+                    r.require(re.match(r"^(\w+\.)*DownloadNode\(self\._verifycap, ", s) is not None, f, f.loc(n.ast),
+                              "%s is %s, not a DownloadNode of this node's verify cap" % (na, s))
+            if not seen:
+                raise AnchorVanished("CiphertextFileNode never creates %s" % na)
+            r.site(cfn_cls.qual, None, "download node of the verify cap")
+        # DownloadNode.get_segsize: every value its Deferred can fire with
+        gs = idx.func(NODE + ".get_segsize")
+        gcfg = gs.cfg()
+        gn = FlowNorm(gs)
+        gregs = _regs(gs)
+        OBS = re.compile(r"^self\.(\w+)\.when_fired\(\)$")
+        observers = set()
+
+        def cb_results(parent, target):
+            """[(text, fn, locnode)] a callback may return; text None = passes its argument through"""
+            if isinstance(target, ast.Lambda):
+                ps = [a.arg for a in target.args.args]
+                t = norm_plain(target.body)
+                return [(None if ps and t == ps[0] else t, parent, target)]
+            f = _cb_func(idx, parent, target)
+            if f is None:
+                return [("<%s>" % src(parent, target), parent, target)]
+            fp = first_positional_params(f)
+            out = []
+            fnm = FlowNorm(f)
+            for n in f.cfg().find(is_return):
+                t = fnm.norm(n, n.ast.value) if n.ast.value is not None else "None"
+                out.append((None if fp and t == fp[0] else t, f, n.ast))
+            if find_path_avoiding(f.cfg(), lambda n: n.kind == "exit", gate_node=is_return):
+                out.append(("None", f, None))
+            return out
+
+        def known_gate(n, lab):
+            f = gn.edge_fact(n, lab)
+            if not f:
+                return False
+            return f in (("truth", "self.segment_size", None), ("truth", "self.have_UEB", None)) or \
+                (f[0] in ("is not", "!=") and {f[1], f[2]} == {"self.segment_size", "None"})
+
+        def judge(text, f, locnode, direct_node=None):
+            if text == "self.segment_size":
+                if direct_node is not None:
+                    for (t, w) in find_path_avoiding(gcfg, lambda x: x is direct_node, gate_edge=known_gate,
+                                                     kill=stores("self.segment_size")):
+                        r.violation(gs, gs.loc(direct_node.ast), "get_segsize answers with self.segment_size on a path where it is "
+                                    "not known yet (path: %s)" % w.brief(), w)
+                return
+            m = OBS.match(text)
+            if m:
+                observers.add(m.group(1))
+                return
+            r.violation(f, f.loc(locnode) if locnode is not None else f.loc(),
+                        "the segment size given to the repairer can be %s: not the segment size of the validated UEB "
+                        "(repair would re-encode with other parameters and its shares would not match the cap)" % text)
+        rets = gcfg.find(is_return)
+        if not rets:
+            raise AnchorVanished("get_segsize has no return")
+        for n in rets:
+            r.site(gs, n.ast, "segment size answer")
+            v = n.ast.value
+            if v is None:
+                judge("None", gs, n.ast)
+                continue
+            dv = attr_path(v)
+            chain = [x for x in gregs if dv and x.recv == dv]
+            if chain:
+                # possible success values of the Deferred after its chain
+                src_defs = [assign_value(m_, dv) for m_ in gcfg.nodes if dv in node_stores(m_)]
+                cur = [(gn.norm(n, v), gs, n.ast)]
+                for x in chain:
+                    res = cb_results(gs, x.target)
+                    if x.kind == "pair" and x.errtarget is not None:
+                        res = res + [y for y in cb_results(gs, x.errtarget) if y[0] is not None]
+                    thru = any(t is None for (t, _f, _l) in res)
+                    new = [y for y in res if y[0] is not None]
+                    if x.kind == "eb":
+                        cur = cur + new
+                    else:
+                        cur = new + (cur if thru else [])
+                for (t, f_, l_) in cur:
+                    judge(t, f_, l_)
+                continue
+            rv = gn.resolve(n, v)
+            if isinstance(rv, ast.Call) and call_tail(rv) == "succeed" and len(rv.args) == 1:
+                judge(gn.norm(n, rv.args[0]), gs, n.ast, direct_node=n)
+            else:
+                judge(gn.norm(n, v), gs, n.ast)
+        # the observer list is fired only with the UEB's segment size
+        pu = idx.func(NODE + "._parse_and_store_UEB")
+        pp_ = first_positional_params(pu)[0]
+        dvs = [attr_path(t) for n in _own(pu) if isinstance(n, ast.Assign) and isinstance(n.value, ast.Call)
+               and call_tail(n.value) == "unpack_extension" and len(n.value.args) == 1
+               and attr_path(n.value.args[0]) == pp_ for t in n.targets]
+        if len(dvs) != 1 or not dvs[0]:
+            raise AnchorVanished("_parse_and_store_UEB: d = uri.unpack_extension(<parameter>)")
+        D = dvs[0]
+        UEB_SEG = "%s['segment_size']" % D
+        cg = get_callgraph(idx)
+        for o in sorted(observers):
+            fires = [cs for t in ("fire", "fire_if_not_fired") for cs in cg.calls_named(t)
+                     if (call_name(cs.call) or "").endswith("." + o + "." + t)]
+            if not fires:
+                raise AnchorVanished("nothing fires %s" % o)
+            for cs in fires:
+                r.site(cs.fn, cs.call, "observer fired")
+                ok = cs.fn is pu and len(cs.call.args) == 1
+                if ok:
+                    fnm = FlowNorm(pu, keep=(D,))
+                    ok = fnm.norm(_node_of(pu, cs.call), cs.call.args[0]) in ("self.segment_size", UEB_SEG)
+                r.require(ok, cs.fn, cs.fn.loc(cs.call), "%s fires the segment-size observers with %s, not with the segment size of "
+                          "the validated UEB" % (short(cs.fn), src(cs.fn, cs.call)))
+        # self.segment_size: None until the validated UEB is parsed
+        dn_cls = idx.cls(NODE)
+        nstores = 0
+        for f in idx.funcs.values():
+            if f.cls is not dn_cls:
+                continue
+            for n in f.cfg().nodes:
+                if "self.segment_size" not in node_stores(n):
+                    continue
+                nstores += 1
+                v = assign_value(n, "self.segment_size")
+                if f.name == "__init__" and f.parent is None and v is not None and isinstance(v, ast.Constant) and v.value is None:
+                    continue
+                ok = f is pu and v is not None and FlowNorm(pu, keep=(D,)).norm(n, v) == UEB_SEG
+                r.require(ok, f, f.loc(n.ast), "DownloadNode.segment_size is set by %s: only the 'segment_size' field of the "
+                          "hash-checked UEB may become the file's segment size" % src(f, n.ast))
+        if nstores < 2:
+            raise AnchorVanished("DownloadNode.segment_size stores")
+        r.site(pu, None, "segment_size <- validated UEB")
+        for (f, nd) in cg.attr_stores("segment_size"):
+            mname = f.module.name
+            if not (mname.startswith("allmydata.immutable.downloader") or mname in ("allmydata.immutable.filenode",
+                                                                                     "allmydata.immutable.repairer")):
+                continue
+            if f.cls is dn_cls and attr_path(nd) == "self.segment_size":
+                continue
+            r.violation(f, f.loc(nd), "%s overwrites a segment_size outside the validated-UEB path" % short(f))
+        # the other inputs: size, storage index, cap
+        for meth, want in (("get_size", "self._verifycap.size"), ("get_storage_index", "self._verifycap.storage_index"),
+                           ("get_verify_cap", "self._verifycap")):
+            m = idx.func(CFN + "." + meth)
+            mn_ = FlowNorm(m)
+            mrets = m.cfg().find(is_return)
+            r.site(m, None, meth)
+            r.require(bool(mrets) and all(n.ast.value is not None and mn_.norm(n, n.ast.value) == want for n in mrets), m, m.loc(),
+                      "%s returns %s, not %s" % (meth, [mn_.norm(n, n.ast.value) if n.ast.value is not None else None for n in mrets], want))
+
+    # -- 10. the verifier's block hash tree is rooted in the share hash tree ---
+    with ctx.rule("C45.10", "R1/R4", "ValidatedReadBucketProxy: hashes enter self.block_hash_tree only after its root was seeded "
+                  "from (or, before a block is returned, compared with) the share hash tree leaf of the claimed share number - "
+                  "an IncompleteHashTree without root accepts any self-consistent set of hashes", expected=7) as r:
+        vc = idx.cls(VRBP)
+        TREE = "self.block_hash_tree"
+        LEAF = "self.share_hash_tree.get_leaf(self.sharenum)"
+        fns = []
+
+        def _collect(f):
+            fns.append(f)
+            for g in f.nested.values():
+                if isinstance(g.node, (ast.FunctionDef, ast.AsyncFunctionDef)):
+                    _collect(g)
+        for f in vc.methods.values():
+            _collect(f)
+        # the state the argument rests on is fixed at construction
+        init = idx.func(VRBP + ".__init__")
+        ips = first_positional_params(init)
+        if len(ips) < 3:
+            raise AnchorVanished("ValidatedReadBucketProxy(sharenum, bucket, share_hash_tree, ...)")
+        for attr, want in (("self.sharenum", ips[0]), ("self.share_hash_tree", ips[2]), (TREE, None)):
+            r.site(init, None, "state " + attr)
+            if want is not None:
+                _require_store(r, init, attr, lambda s, w=want: s == w, "the constructor argument %s" % want)
+            else:
+                _require_store(r, init, attr, lambda s: re.match(r"^(\w+\.)*IncompleteHashTree\(", s) is not None,
+                               "a fresh IncompleteHashTree")
+            for f in fns:
+                if f is init:
+                    continue
+                for n in f.cfg().nodes:
+                    if {attr, attr + "[]"} & node_stores(n):
+                        r.violation(f, f.loc(n.ast), "%s changes %s after construction" % (short(f), attr))
+        for n in init.cfg().nodes:
+            if (TREE + "[]") in node_stores(n):
+                r.violation(init, init.loc(n.ast), "%s is filled by hand" % TREE)
+        # classify every set_hashes on the block hash tree
+        norms = {}
+        seeds, feeds = [], []           # (fn, cfgnode, call)
+        for f in fns:
+            fnm = norms[f.qual] = FlowNorm(f)
+            in_cfg = 0
+            for n in f.cfg().nodes:
+                for c in node_calls(n):
+                    if call_tail(c) != "set_hashes" or not isinstance(c.func, ast.Attribute):
+                        continue
+                    if fnm.norm(n, c.func.value) != TREE:
+                        continue
+                    in_cfg += 1
+                    a0 = arg(c, 0, "hashes")
+                    is_seed = False
+                    if isinstance(a0, ast.Dict) and len(a0.keys) == 1 and dict_literal_keys(a0) == [0] and len(c.args) + len(c.keywords) == 1:
+                        is_seed = fnm.norm(n, a0.values[0]) == LEAF
+                    (seeds if is_seed else feeds).append((f, n, c))
+            walked = [c for c in calls_in_func(f, "set_hashes", into_lambda=True) if _inner(f, c) and isinstance(c.func, ast.Attribute)
+                      and N(f).norm(c.func.value) == TREE]
+            if len(walked) > in_cfg:
+                raise AnalysisError("%s feeds %s from a lambda: not analysed" % (f.qual, TREE))
+        if not feeds:
+            raise AnchorVanished("nothing feeds the verifier's block hash tree")
+        for (f, n, c) in seeds:
+            r.site(f, c, "root <- share hash tree leaf")
+
+        def all_paths_seed(f):
+            ss = [n for (g, n, _c) in seeds if g is f]
+            if not ss:
+                return False
+            return not find_path_avoiding(f.cfg(), lambda x: x.kind == "exit", gate_node=lambda x: any(x is s for s in ss),
+                                          kill=stores_any([TREE, TREE + "[]"]))
+        gd = idx.func(VRBP + "._got_data")
+        compared_on_delivery = all_paths_seed(gd)     # every delivered block implies root == leaf
+        # methods that always seed, and the order in which the verifier invokes the proxy's methods
+        def top_method(f):
+            while f.parent is not None:
+                f = f.parent
+            return f
+
+        def always_seeds(m):
+            if all_paths_seed(m):
+                return True
+            regs = _regs(m)
+            cbs = [x for x in regs if x.kind == "cb"]
+            if len(regs) == 1 and len(cbs) == 1:
+                cb = _cb_func(idx, m, cbs[0].target)
+                return cb is not None and cb in fns and all_paths_seed(cb) and \
+                    all(attr_path(x.ast.value) == cbs[0].recv for x in m.cfg().find(is_return))
+            return False
+        gu = idx.func(CHECKER + "._download_and_verify._got_ueb")
+        order = []
+        gregs_ = _regs(gu)
+        vvars = {attr_path(t) for n in _own(gu) if isinstance(n, ast.Assign) and isinstance(n.value, ast.Call)
+                 and call_tail(n.value) == "ValidatedReadBucketProxy" for t in n.targets}
+        for n in gu.cfg().nodes:
+            for c in node_calls(n):
+                if isinstance(c.func, ast.Attribute) and attr_path(c.func.value) in vvars:
+                    order.append(c.func.attr)
+        plain_chain = all(x.kind == "cb" for x in gregs_)
+        for x in gregs_:
+            if isinstance(x.target, ast.Lambda):
+                for c in ast.walk(x.target.body):
+                    if isinstance(c, ast.Call) and isinstance(c.func, ast.Attribute) and attr_path(c.func.value) in vvars:
+                        order.append(c.func.attr)
+
+        def ordered_after_seed(m):
+            if not plain_chain or m.name not in order:
+                return False
+            bad, badrefs, _t = callers_outside(idx, m.name, [gu.qual], recv_filter=lambda cs: cs.fn.module is gu.module)
+            if bad or badrefs:
+                return False
+            before = order[:order.index(m.name)]
+            return any(b in vc.methods and always_seeds(vc.methods[b]) for b in before)
+        for (f, n, c) in feeds:
+            r.site(f, c, "hashes enter the block hash tree")
+            r.count(len(f.cfg().nodes))
+            if compared_on_delivery:
+                continue
+            fnm = norms[f.qual]
+            mine = [s for (g, s, _c) in seeds if g is f]
+
+            def root_known(a, lab, _fnm=fnm):
+                fact = _fnm.edge_fact(a, lab)
+                if not fact:
+                    return False
+                return fact == ("truth", TREE + "[0]", None) or \
+                    (fact[0] in ("is not", "!=") and {fact[1], fact[2]} == {TREE + "[0]", "None"})
+            bad = find_path_avoiding(f.cfg(), lambda x, _n=n: x is _n, gate_node=lambda x, _m=mine: any(x is s for s in _m),
+                                     gate_edge=root_known, kill=stores_any([TREE, TREE + "[]"]))
+            if not bad:
+                continue
+            if ordered_after_seed(top_method(f)):
+                continue
+            (t, w) = bad[0]
+            r.violation(f, f.loc(c), "%s is reached while the block hash tree may have no root yet (path: %s): a rootless "
+                        "IncompleteHashTree takes its root from these hashes, and nothing later compares that root with %s, so a "
+                        "share whose block hash tree is merely self-consistent (another share number's file, or forged blocks) "
+                        "is reported good" % (src(f, c), w.brief(), LEAF), w)
